@@ -7,6 +7,7 @@ import (
 	"fmt"
 	"io"
 	"testing"
+	"verif/harness/iox"
 
 	"github.com/Tnze/go-mc/level"
 	"github.com/Tnze/go-mc/level/biome"
@@ -166,16 +167,28 @@ func c12Check(c C12Case) *pbt.Violation {
 					c12Apply(dst, scratch, c.Pool, h)
 				}
 			}
-			rd := bytes.NewReader(append(buf.Bytes(), 0xA5, 0x5A))
+			// the stream goes on after the container (here: 6000 more bytes): what the reader takes from the
+			// stream is measured at the source, for readers with and without ReadByte, whole and in pieces
+			rd := iox.NewSrc(append(append([]byte{}, buf.Bytes()...), bytes.Repeat([]byte{0xA5, 0x5A}, 3000)...))
+			var reader io.Reader = iox.ByteSrc{Src: rd}
+			switch (si + op.I) % 4 {
+			case 1:
+				reader = iox.Plain{R: rd}
+			case 2:
+				rd.Plan = []int{1 + (op.I+si)%37}
+			case 3:
+				reader = iox.Plain{R: rd}
+				rd.Plan = []int{1 + (op.I+si)%37}
+			}
 			var rn int64
-			if pv, stack := pbt.Try(func() { rn, err = dst.ReadFrom(rd) }); pv != nil {
+			if pv, stack := pbt.Try(func() { rn, err = dst.ReadFrom(reader) }); pv != nil {
 				return pbt.V(pbt.PanicKey("c12.readfrom", stack), "ReadFrom into any container", "%s: ReadFrom panicked: %v\n%s", step, pv, stack)
 			}
 			if err != nil {
 				return pbt.V("c12.wire.read", "reading it into another container", "%s: ReadFrom: %v", step, err)
 			}
-			if rd.Len() != 2 || rn != int64(buf.Len()) {
-				return pbt.V("c12.wire.consumed", "reading consumes exactly the bytes written", "%s: ReadFrom n=%d, left %d (+2 sentinel), written %d", step, rn, rd.Len(), buf.Len())
+			if rd.Pos != buf.Len() || rn != int64(buf.Len()) {
+				return pbt.V("c12.wire.consumed", "reading consumes exactly the bytes written", "%s: ReadFrom returned n=%d and took %d bytes from the stream (reader variant %d); %d were written", step, rn, rd.Pos, (si+op.I)%4, buf.Len())
 			}
 			cont = dst // continue mutating the copy
 			if v := c12Scan(cont, model, step+" (reading into "+op.K[4:]+" container)"); v != nil {
